@@ -39,7 +39,7 @@ def _before(b, a, c):
 
 
 def r1(ctx):
-    m = ctx.body(ctx.find(path=W + "calculate_mean"))
+    m = ctx.ibody(ctx.find(path=W + "calculate_mean"))
     aa = [(bi, t, tm) for bi, t, tm in m.real_calls() if tm[1] == "std::ops::AddAssign::add_assign"]
     ok = len(aa) == 1 and render(aa[0][2][2][0]) == "prev_mean" and render(m.return_term()) == "prev_mean"
     if ok:
@@ -49,14 +49,14 @@ def r1(ctx):
         except formula.NotAFormula:
             ok = False
     ctx.check("welford_online::calculate_mean", ok, "mean' = mean + (x - mean) / n", got=[render(x[2]) for x in aa], key="formula")
-    r = ctx.body(ctx.find(path=W + "calculate_recurrence_relation_m"))
+    r = ctx.ibody(ctx.find(path=W + "calculate_recurrence_relation_m"))
     try:
         pm_, pmean, x, nm = sympy.symbols("prev_m prev_mean new_value new_mean")
         ok = formula.equal(formula.to_sympy(ctx.facts, r.return_term()), pm_ + (x - pmean) * (x - nm))
     except formula.NotAFormula:
         ok = False
     ctx.check("welford_online::calculate_recurrence_relation_m", ok, "M' = M + (x - mean)(x - mean')", got=render(r.return_term()), key="formula")
-    v = ctx.body(ctx.find(path=W + "calculate_population_variance"))
+    v = ctx.ibody(ctx.find(path=W + "calculate_population_variance"))
     tab = {}
     for g, term, bi in v.expanded_cases(0):
         for conj in g:
@@ -70,7 +70,7 @@ def r1(ctx):
 
 
 def r2(ctx):
-    b = ctx.fbody(name="update", self_adt=DS, trait="")
+    b = ctx.fibody(name="update", self_adt=DS, trait="")
     calls = b.real_calls()
     true = frozenset([frozenset()])
     cnt = [(bi, t, tm) for bi, t, tm in calls if tm[1] == "std::ops::AddAssign::add_assign" and render(tm[2][0]) == "self.count"]
@@ -92,39 +92,42 @@ def r2(ctx):
     ctx.check("DataSetSummary::update", [render(a) for a in cm[0][2][2]] == ["self.mean", "next_value", "self.count"] and
               b.dominates(cnt[0][0], cm[0][0]) and cnt[0][0] != cm[0][0],
               "new mean = calculate_mean(current mean, value, ALREADY incremented count)", got=render(cm[0][2]), key="mean-args")
-    # the previous mean is read before the new mean is stored
-    reads = []
-    for blk in b.blocks:
-        for si, s in enumerate(blk["stmts"]):
-            if "lhs" in s and not s["lhs"]["p"] and s["rv"]["r"] == "use" and b.locals[s["lhs"]["l"]]["name"] is not None \
-                    and render(b.rvalue_term(s["rv"])) == "self.mean":
-                reads.append((blk["i"], si, s["lhs"]["l"]))
-    okr = len(reads) == 1 and _before(b, (reads[0][0], reads[0][1]), (st[0][0], st[0][1]))
-    ctx.check("DataSetSummary::update", okr, "the previous mean is copied BEFORE the new mean is stored", got=reads, key="prev-mean-first")
-    # dispersion.update(prev_mean, new_mean, value, count): arg0 is that copy, arg1 is read after the store
-    args = du[0][1]["args"]
-    a1 = args[1].get("c") or args[1].get("m")
-    hops = 0
-    while okr and a1 is not None and not a1["p"] and a1["l"] != reads[0][2] and hops < 6:
-        ds = b.defs.get(a1["l"], [])
-        if len(ds) == 1 and ds[0][2] == "stmt" and ds[0][3]["rv"]["r"] == "use":
+    # dispersion.update(prev_mean, new_mean, value, count): follow each argument back through copies of locals to the
+    # statement that actually READS memory; the previous mean must be read from self.mean before the new mean is stored,
+    # the new mean after it (idiom-independent: works the same when the copy lives in a helper that was inlined)
+    def origin_read(op):
+        p = op.get("c") or op.get("m")
+        hops = 0
+        while p is not None and not p["p"] and hops < 12:
+            ds = b.defs.get(p["l"], [])
+            if len(ds) != 1 or ds[0][2] != "stmt" or ds[0][3]["rv"]["r"] != "use":
+                return None
             o = ds[0][3]["rv"]["o"]
-            a1 = o.get("c") or o.get("m")
-        else:
-            a1 = None
-        hops += 1
-    okp = okr and a1 is not None and a1["l"] == reads[0][2] and not a1["p"]
-    ctx.check("DataSetSummary::update", okp and [render(x) for x in du[0][2][2]] == ["self.dispersion", "self.mean", "self.mean", "next_value", "self.count"]
+            q = o.get("c") or o.get("m")
+            if q is None:
+                return None
+            if q["p"]:
+                return (ds[0][0], ds[0][1], render(b.place_term(q)))
+            p = q
+            hops += 1
+        return None
+    args = du[0][1]["args"]
+    r0, r1 = origin_read(args[1]), origin_read(args[2])
+    okr = r0 is not None and r0[2] == "self.mean" and _before(b, (r0[0], r0[1]), (st[0][0], st[0][1]))
+    ctx.check("DataSetSummary::update", okr, "the previous mean handed to the dispersion is read from self.mean BEFORE the new mean is stored",
+              got=r0, key="prev-mean-first")
+    okn = r1 is not None and r1[2] == "self.mean" and _before(b, (st[0][0], st[0][1]), (r1[0], r1[1]))
+    ctx.check("DataSetSummary::update", okr and okn and [render(x) for x in du[0][2][2]] == ["self.dispersion", "self.mean", "self.mean", "next_value", "self.count"]
               and _before(b, (st[0][0], st[0][1]), (du[0][0], None)),
-              "dispersion.update(previous mean, new mean, value, count) - in those roles, after the new mean is stored",
-              got=render(du[0][2]), key="dispersion-args")
-    db = ctx.fbody(name="update", self_adt=DISP, trait="")
+              "dispersion.update(previous mean, new mean, value, count) - in those roles, the new mean read after it is stored",
+              got=(r1, render(du[0][2])), key="dispersion-args")
+    db = ctx.fibody(name="update", self_adt=DISP, trait="")
     names = [db.locals[i]["name"] for i in range(1, db.argc + 1)]
     ctx.check("Dispersion::update", names == ["self", "prev_mean", "new_mean", "new_value", "value_count"], "parameter roles", got=names, key="params")
 
 
 def r3(ctx):
-    b = ctx.fbody(name="update", self_adt=DISP, trait="")
+    b = ctx.fibody(name="update", self_adt=DISP, trait="")
     calls = b.real_calls()
     st = {render(path): (bi, si, value) for bi, si, path, value, s in b.stores()}
     ru = [(bi, t, tm) for bi, t, tm in calls if mir.short(tm[1]) == "Range::update"]
@@ -157,7 +160,7 @@ def r4(ctx):
     """Range::update touches its values only through comparisons: decide it on the finite set of orderings of
     (new_value, low, high) with low <= high, x activated in {false, true}."""
     import itertools
-    b = ctx.fbody(name="update", self_adt=RNG, trait="")
+    b = ctx.fibody(name="update", self_adt=RNG, trait="")
     stores = [(bi, si, render(path), render(value), b.guard(bi)) for bi, si, path, value, s in b.stores()]
     syms = ("new_value", "self.low", "self.high")
     problems = []
@@ -216,7 +219,7 @@ def r4(ctx):
               "on every ordering of (value, low, high): the first value seeds both bounds; afterwards high' = max(high, value), "
               "low' = min(low, value)", got=problems[:4], key="table")
     ctx.extra["C17.R4 orderings evaluated"] = n
-    rb = ctx.fbody(name="range", self_adt=RNG, trait="")
+    rb = ctx.fibody(name="range", self_adt=RNG, trait="")
     try:
         ok = formula.equal(formula.to_sympy(ctx.facts, rb.return_term()), sympy.Symbol("self.high") - sympy.Symbol("self.low"))
     except formula.NotAFormula:
